@@ -9,12 +9,14 @@ namespace view = nm::view;
 template <typename A, typename T> static inline void fill_buf(A& a, const T* d){ fill_n(nm::data(a), d, (size_t)nm::size(a)); }
 template <typename S> static inline bool idx_inside(const size_t* idx, size_t n, const S& shape){
   for (size_t i=0;i<n;i++) if (idx[i] >= (size_t)nm::at(shape,i)) return false; return true; }
+// reference to the payload of a maybe (or to the object itself); nm::unwrap returns non-maybe arrays BY VALUE, which would copy vector buffers
+template <typename T> static inline const auto& payload(const T& x){ if constexpr (meta::is_maybe_v<T>) return *x; else return x; }
 // returns 0 lazy Nothing (eager must then be Nothing too, else 5), 4 eager Nothing, 2 index length != dim, 3 index outside the lazy shape, 1 ok
 template <typename MV, typename ME, typename T>
 static inline int lazy_eager(const MV& mv, const ME& me, const size_t* idx, size_t nidx, size_t* lshape, size_t* ldim, T* lval, size_t* eshape, size_t* edim, T* eval_){
   if (!nm::has_value(mv)) return nm::has_value(me) ? 5 : 0;
   if (!nm::has_value(me)) return 4;
-  const auto& v = nm::unwrap(mv); const auto& e = nm::unwrap(me);
+  const auto& v = payload(mv); const auto& e = payload(me);
   *ldim = put(nm::shape(v), lshape); *edim = put(nm::shape(e), eshape);
   if (nidx != *ldim || nidx != *edim) return 2;
   if (!idx_inside(idx, nidx, nm::shape(v)) || !idx_inside(idx, nidx, nm::shape(e))) return 3;
